@@ -20,6 +20,7 @@
 #include <functional>
 #include <mutex>
 #include <thread>
+#include <condition_variable>
 #include <chrono>
 #include <algorithm>
 #include <sstream>
@@ -201,6 +202,7 @@ struct Perturb {
     // pct: up to 8 (id, occurrence) pairs that get one long delay
     std::atomic<int> pct_id[8]; std::atomic<uint64_t> pct_occ[8]; std::atomic<uint64_t> pct_seen[kMaxHookId];
     std::atomic<uint64_t> delays{0};
+    std::atomic<long> budget{1L << 40};             // delays left in the current scenario (perturb_random refills it)
     void clear() { for (auto& p : prob) p.store(0, std::memory_order_relaxed); for (auto& p : pct_id) p.store(-1, std::memory_order_relaxed); mode.store(P_OFF); }
     void uniform(uint32_t p) { clear(); for (auto& q : prob) q.store(p, std::memory_order_relaxed); mode.store(P_UNIFORM); }
     void focus(const std::vector<int>& ids, uint32_t p_focus, uint32_t p_other = 0) {
@@ -243,6 +245,7 @@ uint64_t progress_count();
 void watchdog_start(const WatchdogCfg& cfg, HangFn on_hang);
 void watchdog_pause(bool paused);      // e.g. during long single operations that are known to be slow
 void watchdog_stop();
+void suspend_gate();                   // background helpers (keeper) block here, without timeouts, while the watchdog is deciding
 
 // ------------------------------------------------------------------------------------------------ misc
 void pin_process_to_cpus(int ncpus);   // restrict the whole process (call before threads are created)
@@ -276,7 +279,7 @@ int gettid_() { return (int)syscall(SYS_gettid); }
 std::string hex64(uint64_t v) { char b[20]; snprintf(b, 20, "%016llx", (unsigned long long)v); return b; }
 
 static std::mutex g_ht_mutex;
-static std::vector<HookThread*> g_hts;
+static std::vector<HookThread*>& g_hts = *new std::vector<HookThread*>();   // never destroyed: threads outlive main(); stays reachable for LeakSanitizer
 HookThread& hook_thread() {
     static thread_local HookThread* t = nullptr;
     if (!t) {
@@ -334,6 +337,7 @@ void set_report_handler(ReportFn f) { g_report.store(f); }
 void set_point_observer(PointFn f) { g_observer.store(f); }
 
 static void do_delay(HookThread& t, bool longer) {
+    if (g_perturb.budget.fetch_sub(1, std::memory_order_relaxed) <= 0) return;
     g_perturb.delays.fetch_add(1, std::memory_order_relaxed);
     uint32_t r = t.rng.u32();
     if (longer) { sleep_us(500 + r % 3000); return; }
@@ -343,6 +347,7 @@ static void do_delay(HookThread& t, bool longer) {
     else { uint32_t mx = g_perturb.max_sleep_us.load(std::memory_order_relaxed); sleep_us(5 + (r >> 8) % (mx ? mx : 1)); }
 }
 void perturb_random(Rng& r, const std::vector<int>& ids) {
+    g_perturb.budget.store(2500, std::memory_order_relaxed);   // a scenario that passes a hook millions of times must not crawl
     unsigned k = (unsigned)r.below(100);
     if (k < 15) { g_perturb.clear(); }
     else if (k < 45) { g_perturb.uniform(200 + (uint32_t)r.below(3000)); }             // 0.3% .. 5%
@@ -424,6 +429,8 @@ static std::atomic<uint64_t> g_progress{0};
 void progress() { g_progress.fetch_add(1, std::memory_order_relaxed); }
 uint64_t progress_count() { return g_progress.load(std::memory_order_relaxed); }
 static std::atomic<bool> g_wd_stop{false}, g_wd_paused{false};
+static std::mutex g_gate_m; static std::condition_variable g_gate_cv;
+void suspend_gate() { if (!g_perturb.suspended.load(std::memory_order_relaxed)) return; std::unique_lock<std::mutex> l(g_gate_m); g_gate_cv.wait(l, [] { return !g_perturb.suspended.load(); }); }
 static std::thread* g_wd_thread = nullptr;
 
 struct TaskSample { int tid; char state; uint64_t run_ns; uint64_t slices; };
@@ -459,7 +466,7 @@ static std::string describe_threads(const std::vector<TaskSample>& ts) {
     return o.str();
 }
 void watchdog_pause(bool p) { g_wd_paused.store(p); }
-void watchdog_stop() { g_wd_stop.store(true); if (g_wd_thread) { g_wd_thread->join(); delete g_wd_thread; g_wd_thread = nullptr; } }
+void watchdog_stop() { g_wd_stop.store(true); { std::lock_guard<std::mutex> l(g_gate_m); g_perturb.suspended.store(false); } g_gate_cv.notify_all(); if (g_wd_thread) { g_wd_thread->join(); delete g_wd_thread; g_wd_thread = nullptr; } }
 void watchdog_start(const WatchdogCfg& cfg, HangFn on_hang) {
     g_wd_stop.store(false);
     g_wd_thread = new std::thread([cfg, on_hang] {
@@ -473,7 +480,7 @@ void watchdog_start(const WatchdogCfg& cfg, HangFn on_hang) {
             uint64_t p = g_progress.load(); double t = now_s();
             if (p != last || g_wd_paused.load()) {
                 last = p; last_t = t; have_base = false; quiet_since = -1; prev.clear();
-                if (g_perturb.suspended.load()) g_perturb.suspended.store(false);
+                if (g_perturb.suspended.load()) { { std::lock_guard<std::mutex> l(g_gate_m); g_perturb.suspended.store(false); } g_gate_cv.notify_all(); }
                 continue;
             }
             if (t - last_t < cfg.no_progress_s) continue;
@@ -483,7 +490,7 @@ void watchdog_start(const WatchdogCfg& cfg, HangFn on_hang) {
             if (!have_base) { base.clear(); for (auto& s : ts) base[s.tid] = s; have_base = true; }
             bool all_asleep = true;
             for (auto& s : ts) {
-                if (s.tid == self) continue;
+                if (s.tid == self || s.state == '?') continue;     // '?': the thread exited while we were sampling
                 auto it = prev.find(s.tid);
                 bool unscheduled = it != prev.end() && it->second.slices == s.slices && it->second.run_ns == s.run_ns;
                 if (!((s.state == 'S' || s.state == 'D') && unscheduled)) all_asleep = false;
@@ -499,13 +506,13 @@ void watchdog_start(const WatchdogCfg& cfg, HangFn on_hang) {
             // and at least one such thread exists
             bool any_running = false, all_burnt = true;
             for (auto& s : ts) {
-                if (s.tid == self) continue;
-                auto b = base.find(s.tid); uint64_t b_ns = b == base.end() ? 0 : b->second.run_ns;
-                double burnt = (s.run_ns - b_ns) * 1e-9;
+                if (s.tid == self || s.state == '?') continue;
+                auto b = base.find(s.tid); uint64_t b_ns = b == base.end() ? s.run_ns : b->second.run_ns;   // a thread born after the stall began has burnt nothing yet
+                double burnt = s.run_ns > b_ns ? (s.run_ns - b_ns) * 1e-9 : 0.0;
                 bool asleep = (s.state == 'S' || s.state == 'D') && burnt < 0.05;
                 if (!asleep) { any_running = true; if (burnt < cfg.spin_cpu_s) all_burnt = false; }
             }
-            if (any_running && all_burnt) {
+            if (any_running && all_burnt && t - last_t >= cfg.spin_cpu_s) {
                 if (g_progress.load() != last) continue;
                 hi.spin_stall = true; hi.threads = describe_threads(ts); on_hang(hi); return;
             }
